@@ -569,6 +569,7 @@ READ_VARIANTS = [
     "picardhs",
     "seg-1-sample",
     "seg-k-samples",
+    "seg-k-samples-interleaved",
     "vcf-sites",
     "vcf-sample",
     "vcf-snv",
@@ -678,6 +679,14 @@ def run_read(case, ctx):
         explicit("seg-k-samples", p, "seg", ["log2", "?probes"], want=srows, sample_id=sid)
         explicit("seg-k-samples", p, "seg", ["log2", "?probes"], want=srows, sample_id=j)
     ctx.stratum("read:seg-samples=%d" % k)
+    if k > 1 and len(rows) > 1:
+        # the same samples, their rows taking turns in the file (e.g. a SEG file sorted by position across samples)
+        p = put("mki.seg", F.write_seg(samples, probes=True, interleave=True))
+        explicit("seg-k-samples-interleaved", p, "seg", ["log2", "?probes"], want=samples[0][1])
+        for j, (sid, srows) in enumerate(samples):
+            explicit("seg-k-samples-interleaved", p, "seg", ["log2", "?probes"], want=srows, sample_id=sid)
+            explicit("seg-k-samples-interleaved", p, "seg", ["log2", "?probes"], want=srows, sample_id=j)
+        ctx.stratum("read:seg-samples-interleaved=%d" % k)
     # VCF
     p = put("m.sites.vcf", F.write_vcf(rows, "sv", sample=False))
     explicit("vcf-sites", p, "vcf-sites", [])
